@@ -65,6 +65,11 @@ class P(vlib.Prop):
                       # batcher's current batch under its own mutex and fires the flush-timer function
                       "/repo/exporter/exporterhelper/internal/queuebatch/zz_verif_c19_access.go": "C19/qb_access.go"},
                      "^TestVerifC19Exp$", "internal", timeout=900),
+        # the same chain built by the PUBLIC helpers around the REAL request types (pdata payloads)
+        vlib.Harness("expreal", "exporter", "./exporterhelper/",
+                     {"zz_verif_c19_test.go": "C19/expreal_test.go", "zz_verif_c19_tel_test.go": _tel("exporterhelper"),
+                      "/repo/exporter/exporterhelper/internal/queuebatch/zz_verif_c19_access.go": "C19/qb_access.go"},
+                     "^TestVerifC19ExpReal$", "exporterhelper", timeout=900),
     ]
     rule = ("receiver: histories of 1-12 End{Traces,Metrics,Logs}Op calls (items 0..10^6, error or not) on the real ObsReport; "
             "scraper: histories of scrapes through the real metrics/logs controller (1-4 scrapers each: ok / partial / error, consumer ok / error); "
@@ -74,6 +79,8 @@ class P(vlib.Prop):
             "exporter: histories of Send calls (single, gated bursts, timer flushes) through the real BaseExporter under generated "
             "queue (none / memory / persistent, requests / items sizer, capacity), batch (none / sending_queue::batch / legacy batcher, min, max), "
             "retry and scripted pusher outcomes (ok / transient / permanent / partial / interrupted by shutdown), then Shutdown. "
+            "exporter (real requests): the same chain through the public NewTraces/NewMetrics/NewLogs with pdata payloads, mostly sending_queue::batch with a small max_size (merge + split, also inside a metric); "
+            "obsconsumer wrappers are created with 1-9 static attributes; "
             "Every case draws a tracer-provider mode (recording SDK spans / no-op provider / NeverSample / ParentBased(NeverSample)) and, for receiver and processor, a live or cancelled caller context. "
             "Every counter of the meter provider and the item attributes of the recorded spans are read back and compared name by name with the model's ledger; "
             "all cases are non-trivial (at least one operation); distinct = distinct case terms.")
@@ -93,7 +100,7 @@ class P(vlib.Prop):
     def translate(self, ctx):
         src = open(os.path.join(vlib.VERIF, "harness", "C19", "tel.go.tmpl")).read()
         os.makedirs(_WORK, exist_ok=True)
-        for pkg in ("receiverhelper", "scraperhelper", "processorhelper", "internal", "obsconsumer"):
+        for pkg in ("receiverhelper", "scraperhelper", "processorhelper", "internal", "obsconsumer", "exporterhelper"):
             p = _tel(pkg)
             text = src.replace("@PKG@", pkg)
             if not (os.path.exists(p) and open(p).read() == text):
